@@ -1,10 +1,12 @@
 #!/bin/sh
 # usage: with_patch.sh [-R] <patch> -- <command...>
-# applies <patch> (reversed with -R) to /repo's working tree, runs the command, then restores the tree.
+# applies <patch> (reversed with -R) to /repo's working tree, runs the command, then restores the tree
+# (also when interrupted).
 REV=""
 if [ "$1" = "-R" ]; then REV="-R"; shift; fi
 PATCH="$(realpath "$1")"; shift; shift
 git -C /repo diff --quiet || { echo "with_patch: /repo working tree is dirty" >&2; exit 3; }
+trap 'git -C /repo checkout -- .' EXIT INT TERM
 git -C /repo apply $REV "$PATCH" || { echo "with_patch: patch does not apply" >&2; exit 3; }
 "$@"
 RC=$?
